@@ -66,6 +66,10 @@ func c07Monitor(st *engine.Step) {
 	class := cookieClass(pre, c)
 	if len(o.FaultFired) > 0 {
 		// a backend failure excuses the positive obligations, never the safety ones
+		if tag.Kind == "full" && o.Probe != nil && o.Probe.Ran {
+			st.Report(engine.Violation{Rule: "C07/cookie-request-passes-full-auth", Attrs: "fault=" + strings.Join(o.FaultFired, "+"),
+				Detail: "under a backend failure a request carrying nothing but a remember cookie was served by a handler that requires FULL authentication"})
+		}
 		if u := o.UIDAfter(); u != "" {
 			if sec == nil || sec.Dead || sec.Owner != u {
 				st.Report(engine.Violation{Rule: "C07/dead-cookie-authenticated", Attrs: "cookie=" + class + ",fault", Detail: "under a backend failure a dead or foreign cookie authenticated " + u})
@@ -239,6 +243,7 @@ func c07Scenarios(tier string) []engine.Scenario {
 			a = append(a, flows.AdminUpdatePassword(x, P1))
 			for _, label := range []string{"db.UseRememberToken", "db.AddRememberToken"} {
 				a = append(a, flows.AFault("open(B1)", label, func(s *world.Stack, _ *world.World) world.Req { return flows.Open("B1") }))
+				a = append(a, flows.AFault("full(B1)", label, func(s *world.Stack, _ *world.World) world.Req { return flows.Full("B1") }))
 			}
 			// crafted cookies for B2
 			a = append(a,
